@@ -290,6 +290,14 @@ struct _kdump_bmp {
 	/** Any private data (owned by the respective ops). */
 	void *priv;
 
+	/** Generation of the dump file format which this bitmap describes.
+	 * If @c fmt_genp is not @c NULL and the value it points to differs
+	 * from @c fmt_gen, the dump has been closed or replaced since the
+	 * bitmap was created, and the bitmap no longer has any content.
+	 */
+	unsigned long fmt_gen;
+	const unsigned long *fmt_genp;	/**< Current generation, or @c NULL. */
+
 	/** Error message.
 	 * This must be the last member. */
 	kdump_errmsg_t err;
@@ -599,7 +607,25 @@ struct kdump_shared {
 
 	/** Size of per-context data. Zero means unallocated. */
 	size_t per_ctx_size[PER_CTX_SLOTS];
+
+	/** File format generation.
+	 * Incremented whenever the current file format is torn down, so
+	 * that objects which refer to format-private data (page map
+	 * bitmaps held by the application) can tell that it is gone.
+	 */
+	unsigned long fmt_gen;
 };
+
+/** Bind a bitmap to the current file format of a dump.
+ * @param bmp     Bitmap object.
+ * @param shared  Shared data of the dump (referenced by the bitmap).
+ */
+static inline void
+bmp_bind_format(kdump_bmp_t *bmp, const struct kdump_shared *shared)
+{
+	bmp->fmt_genp = &shared->fmt_gen;
+	bmp->fmt_gen = shared->fmt_gen;
+}
 
 INTERNAL_DECL(void, shared_free,
 	      (struct kdump_shared *shared));
